@@ -187,10 +187,31 @@ def run_c17(ctx):
                 ctx.violation("property", "recorded totals %s differ from the traffic actually received and sent %s (client_stats=%d)" % (got, tot, s["cfg"][3]),
                               {"cmd": "serve", "cfg": list(s["cfg"]), "seed": s["seed"], "lines": lines, "round": kround})
                 break
+    big_reporter_pass(ctx)
     responder_send_failures(ctx)
     shared_queue(ctx)
     totals_survive_publication_ticks(ctx)
     proof_verdict(ctx)
+
+
+def big_reporter_pass(ctx):
+    """one reporter pass over MANY records (several hundred thousand, in a few large snapshots whose address
+    ranges overlap by half): every record is merged in that pass — the sums are preserved whatever the size —
+    and nothing stays behind on the queue"""
+    cases = [(3, 100000), (2, 200000)] if not ctx.thorough else [(3, 100000), (2, 200000), (5, 120000), (1, 400000)]
+    lines = ["mergebig %d %d" % c for c in cases]
+    out = vlib.run_impl(lines)
+    ctx.evaluations += len(lines)
+    for (nsnap, per), li, line in zip(cases, out, lines):
+        rep = {"cmd": "mergebig", "line": line, "impl": li}
+        want_clients = (nsnap - 1) * (per // 2) + per          # union of the overlapping ranges
+        want = "CLIENTS=%d REQUESTS=%d QUEUED=0" % (want_clients, nsnap * per)
+        ctx.count("big_reporter_pass_records", nsnap * per)
+        if li != want:
+            ctx.violation("property", "one reporter pass over %d snapshots of %d records: %s, but merging preserves every per-address sum only if it is %s" % (nsnap, per, li, want), rep)
+        else:
+            ctx.traces_validated += 1
+            ctx.nontriv("mergebig:%d:%d" % (nsnap, per))
 
 
 def totals_survive_publication_ticks(ctx):
